@@ -12,7 +12,9 @@ RULE = ("fixed catalogue of input families f(n) (nested parentheses, nested refe
         "non-trivial = size >= 8"
         ' Correspondence of the cost model: Fp.Expr.chainCalls (the subject of the parse_calls_* theorems) == the number of Base.__new__ calls for the 13 chain classes measured on the real parser, on random expressions over plain operands and on the V/N families, both standards.')
 ASSUMPTIONS = ["a bound for unseen n is an extrapolation from the measured sizes; the theorems bound the modelled algorithms "
-               "(eval_fuel_mono, parse_cache_once), the leaf classes' own cost is measured"]
+               "(eval_fuel_mono, parse_cache_once), the leaf classes' own cost is measured",
+               "the token-level cost model Fp.Expr.chainCalls is exact except where `/=` stands directly in front of a defined unary "
+               "operator (string-level `/`+`=` overlap, 2 calls more in the real parser): such expressions are counted, not compared"]
 TIE_MODULES = ["FparserModel.Block", "FparserModel.Expr", "FparserModel.ExprCost"]
 
 BUDGET = 1500000
@@ -264,6 +266,16 @@ def run_cost_cosim(case):
             glue = CE.rand_glue(rng, toks, rng.choice([0.0, 0.5, 1.0]))
             c = CE.make_case(tree, toks, glue, "cost", rng)
             if CE.in_known_boundary(c) or CE.in_lexing_boundary(c):
+                continue
+            ws = [w.lstrip("~").lower() for w in c["words"]]
+            if any(a == "/=" and b.startswith(".") and b.endswith(".") and b not in (".not.", ".true.", ".false.") and not b[1:2] == "@"
+                   for a, b in zip(ws, ws[1:])):
+                # `/=` directly in front of a defined unary operator: Expr.match cuts the text
+                # at the dotted word first and the left part then ends in `/=`, which the
+                # string-level mult_op pattern splits at its `/` (two more constructor calls
+                # than the token-level model, whose `/=` is one token: the `/=` gap of
+                # Fp.ExprLex, see parse_string_refines).  Counted, not compared.
+                res["counts"]["cost:ne-before-defined-unary"] = res["counts"].get("cost:ne-before-defined-unary", 0) + 1
                 continue
         rp = m.ask("exprcost", " ".join(c["words"]))[0].split()
         got, kind = real_chain_calls(c["text"], std)
